@@ -282,6 +282,11 @@ def refute_and_replay(o, frb, K, pid):
         if pid_c == 0:
             os.close(r)
             code = 0
+            try:        # die with the parent (a killed check must not leave solver processes behind)
+                import ctypes
+                ctypes.CDLL('libc.so.6').prctl(1, 9)
+            except Exception:
+                pass
             try:
                 for k, v in cfg.items():
                     z3.set_param(k, v)
